@@ -497,6 +497,7 @@ Definition read_item (t : vty) (it : ditem) : M cell :=
   | DEmptyI, _ => ret (default_of t)
   | DTextI s, TStr => ret (CStr s)
   | DTextI s, _ =>
+    if q Q_INT_NUMERAL && (rank t <=? 2) && negb (plain_int s) then fail EReadSyntax else
     match parse_numeral s with
     | None => fail EReadSyntax
     | Some n => match numeral_value t n with Some c => ret c | None => fail EOverflow end
@@ -521,7 +522,8 @@ Fixpoint parse_fields (fs : list str) (ts : list vty) : option (list cell) :=
   | f :: fr, t :: tr =>
     let v := match t with
              | TStr => Some (CStr (strip_sp f))
-             | _ => match parse_numeral f with
+             | _ => if q Q_INT_NUMERAL && (rank t <=? 2) && negb (plain_int f) then None else
+                    match parse_numeral f with
                     | Some n => numeral_value t n
                     | None => None end
              end in
